@@ -1,0 +1,49 @@
+//! Hooks for the unit-name / prefix resolution checks.
+use crate::Context;
+use crate::prefix::Prefix;
+use crate::prefix_parser::PrefixParser;
+
+/// The literal prefix table of the prefix parser.
+pub fn prefix_table() -> Vec<(String, Vec<String>, bool, i32)> {
+    PrefixParser::verif_prefix_table()
+}
+
+/// How a prefix is rendered in output: `(short form, long form)`.
+pub fn prefix_rendering(is_metric: bool, exponent: i32) -> (String, String) {
+    let p = if is_metric {
+        Prefix::Metric(exponent)
+    } else {
+        Prefix::Binary(exponent)
+    };
+    (
+        p.as_string_short().to_string(),
+        p.as_string_long().to_string(),
+    )
+}
+
+/// The prefix factor as f64 bits.
+pub fn prefix_factor_bits(is_metric: bool, exponent: i32) -> u64 {
+    let p = if is_metric {
+        Prefix::Metric(exponent)
+    } else {
+        Prefix::Binary(exponent)
+    };
+    p.factor().to_f64().to_bits()
+}
+
+/// Units registered in the session's prefix parser, in insertion order.
+pub fn units(ctx: &Context) -> Vec<(String, bool, bool, bool, bool, String)> {
+    ctx.prefix_transformer.prefix_parser.verif_units()
+}
+
+/// Non-unit identifiers known to the session's prefix parser, sorted.
+pub fn other_identifiers(ctx: &Context) -> Vec<String> {
+    ctx.prefix_transformer
+        .prefix_parser
+        .verif_other_identifiers()
+}
+
+/// Resolve an identifier with the session's prefix parser.
+pub fn resolve(ctx: &Context, input: &str) -> Option<(bool, i32, String, String)> {
+    ctx.prefix_transformer.prefix_parser.verif_parse(input)
+}
